@@ -16,7 +16,7 @@ ASSUMPTIONS = ["trees are well formed"]
 
 
 def one(rng):
-    ts = gram.gen_treebank(rng, kmax=6, nmax=8)
+    ts = gram.gen_treebank(rng, kmax=6, nmax=8, bare=True)
     with quiet():
         g, lex = gram.extract_all(ts)
     enc = "|".join(proto.enc_tree(t) for t in ts)
